@@ -44,7 +44,7 @@ func storeClass(addr ssa.Value) (string, bool) {
 	switch x := addr.(type) {
 	case *ssa.FieldAddr:
 		fld := x.X.Type().Underlying().(*types.Pointer).Elem().Underlying().(*types.Struct).Field(x.Field)
-		return "F:" + fld.Name(), true
+		return "F:" + structNameOfPtr(x.X.Type()) + "." + fld.Name(), true
 	case *ssa.IndexAddr:
 		return "E:" + typeKey(x.Type()), true
 	case *ssa.Alloc:
